@@ -142,9 +142,13 @@ func (h *Hub) UnregisterRemoteSKI(ski string) {
 
 	h.removeConnectionAttemptCounter(ski)
 
+	// a handshake state update of a concurrently ending connection must not get in between
+	// resetting the state and reporting it, or the reported state is not the kept one
+	h.muxPairingUpdate.Lock()
 	service.ConnectionStateDetail().SetState(api.ConnectionStateNone)
 
-	h.reportPairingDetailUpdate(ski, service.ConnectionStateDetail())
+	h.reportPairingDetailUpdateLocked(ski, service.ConnectionStateDetail())
+	h.muxPairingUpdate.Unlock()
 
 	if existingC := h.connectionForSKI(ski); existingC != nil {
 		existingC.CloseConnection(true, 4500, "User close")
